@@ -253,6 +253,13 @@ func runC10(r *Run) {
 			r.requireSucc(fmt.Sprintf("%s.accept.%s.members.batch=%v", P, rq.typ, batch), "if this fails, a "+rq.typ+" request without DID suffix or signed data — or a deactivate signed for another DID — is accepted", f, ctx, fmt.Sprintf("batch=%v", batch), pats...)
 		}
 	}
+	// "its reveal value is the hash of its signing key": the comparison is between the encoded strings
+	// (a comparison of decoded bytes would accept non-canonical base64url spellings of the hash)
+	if f := r.fn(P, pkgHashing, "IsValidModelMultihash"); f != nil {
+		r.requireSucc(P+".reveal.hash.eq", "if this fails, a reveal value (or delta hash) that is not the canonical encoding of the hash is accepted", f, core.Ctx{}, "",
+			"ok(hashing.GetMultihashCode($1))",
+			"cmp(hashing.CalculateModelMultihash($0, hashing.GetMultihashCode($1)) == $1)")
+	}
 	// nonce rule inside validateNonce (optional nonce)
 	if vn := r.fn(P, pkgParser, "Parser.validateNonce"); vn != nil {
 		r.requireEachSuccessPath(P+".accept.nonce", "a present nonce must decode to exactly NonceSize bytes", vn, core.Ctx{},
